@@ -260,7 +260,7 @@ func c18Op(be Backend, keys [][]byte, present map[string]bool, r *rand.Rand, hit
 func c18Failover(b *Batch, idx int) {
 	rng := rand.New(rand.NewSource(b.CaseSeed(idx)))
 	steered := foSteeredShare(idx / 3)
-	o := foGenOpts{steered: steered, maxWorkers: 6}
+	o := foGenOpts{steered: steered, maxWorkers: 6, mutate: true} // callers cancel / are pre-cancelled / rewrite key buffers
 	if !steered {
 		o.maxWorkers = 12
 	}
@@ -367,6 +367,22 @@ func c18Conservation(b *Batch, idx int) {
 					be.DeleteAll(bg)
 				}
 				time.Sleep(time.Duration(r.Intn(50)) * time.Microsecond)
+			}
+		}()
+	}
+	// reapers delete other goroutines' keys: several Deletes of one key race, only one of them removes the entry
+	for g := 0; g < 3; g++ {
+		batchWG.Add(1)
+		r := rand.New(rand.NewSource(rng.Int63()))
+		go func() {
+			defer batchWG.Done()
+			for {
+				select {
+				case <-stop:
+					return
+				default:
+				}
+				be.Delete(bg, []byte(fmt.Sprintf("u%d-%d", r.Intn(workers), r.Intn(per))))
 			}
 		}()
 	}
